@@ -75,6 +75,21 @@ def cases_list(tier):
                         if n <= 2 and m in (0, 2): out.append((seq, styles, bods, m, pr, 1))        # the same document with CRLF line ends
     return out
 
+def deep_cases():
+    """deep and bushy outlines: chains down to level 6, with and without an earlier sibling at every level, returning or not to level 1"""
+    out = []
+    for D in range(2, 7):
+        for bushy in (0, 1, 2):
+            seq = []
+            for l in range(1, D + 1): seq += [l] * (1 + (bushy if l > 1 or bushy == 2 else 0))
+            for tail in ((), (1,), tuple(range(D - 1, 0, -1))):
+                sq = tuple(seq) + tail
+                for style in ("atx", "closed"):
+                    for m in (0, 2, 3):
+                        for pr in (0, 1):
+                            out.append((sq, (style,) * len(sq), (1,) * len(sq), m, pr, 0))
+    return out
+
 def make_case(cl):
     def case(idx):
         seq, styles, bods, m, pr, crlf = cl[idx]
@@ -185,6 +200,9 @@ def run(tier):
     cl = cases_list(tier)
     res = pmap.pmap(len(cl), make_case(cl), deadline_s=dl * 0.7)
     pmap.fold(rep, "heading-trees", len(cl), res, "heading trees x styles x bodies x preamble x metadata: verbatim notes + round trip")
+    dc = deep_cases()
+    res = pmap.pmap(len(dc), make_case(dc), deadline_s=dl * 0.7)
+    pmap.fold(rep, "deep-outlines", len(dc), res, "chains down to heading level 6, with 0-2 earlier siblings per level, returning or not to level 1 x 2 styles x metadata x preamble: verbatim notes + round trip")
     for L in ((1, 2) if tier == "quick" else (1, 2, 3)):
         case, n = escape_case(L)
         res = pmap.pmap(n, case, deadline_s=dl * 0.9)
